@@ -256,32 +256,39 @@ def run_r1(repo: Repo, res: Result, gram: dict, col: Collector, leaves: list[str
         return None
 
     n_oblig = 0
+    direct: dict[tuple[str, str], str | None] = {}
+    gave_up: dict[tuple[str, str], Unsupported] = {}
+    live = []
     for c, f, typ in pos:
         if c not in chains:
             res.observe(f"C02.R1: grammar position {c}.{f} is not reachable from Module through statement lists (separate root), not an obligation")
             continue
-        n_oblig += 1
+        live.append((c, f, typ))
         try:
-            why = probe(chains[c], c, f, typ)
-            ctx_fail: list[str] = []
-            if why is None:
-                # the same position nested below every other position that can hold a node of class c
-                for d, g, dtyp in pos:
-                    if d not in chains or d == "Module" and c == "Module":
-                        continue
-                    holders = concrete_classes_of(dtyp, gram)
-                    if c in holders:
-                        chain = chains[d] + [(d, g)]
-                    elif dtyp != "stmt*" and c not in ("Module",) and issubclass(getattr(ast, c), ast.stmt):
-                        continue  # handled through the carrier's own body position
-                    else:
-                        continue
-                    w = probe(chain, c, f, typ)
-                    if w is not None:
-                        ctx_fail.append(f"{d}.{g} ({w})")
+            direct[(c, f)] = probe(chains[c], c, f, typ)
         except Unsupported as u:
+            gave_up[(c, f)] = u
+    for c, f, typ in live:
+        n_oblig += 1
+        if (c, f) in gave_up:
+            u = gave_up[(c, f)]
             res.undecide("C02.R1", f"{key}::position {c}.{f}", f"the symbolic executor cannot interpret the collector: {u.msg}", u.where() or wh)
             continue
+        why = direct[(c, f)]
+        ctx_fail: list[str] = []
+        if why is None:
+            # the same position nested below every other position that can hold a node of class c; contexts that lose imports
+            # themselves are reported at their own position, not again here
+            try:
+                for d, g, dtyp in live:
+                    if direct.get((d, g), "x") is not None or c == "Module" or c not in concrete_classes_of(dtyp, gram):
+                        continue
+                    w = probe(chains[d] + [(d, g)], c, f, typ)
+                    if w is not None:
+                        ctx_fail.append(f"{d}.{g} ({w})")
+            except Unsupported as u:
+                res.undecide("C02.R1", f"{key}::position {c}.{f}", f"the symbolic executor cannot interpret the collector: {u.msg}", u.where() or wh)
+                continue
         ok = why is None and not ctx_fail
         if ok:
             detail = f"an import statement at {c}.{f} ({typ}), at top level of its chain and nested below every other statement position, is converted"
@@ -575,7 +582,7 @@ def run_r5_creators(repo: Repo, res: Result, col: Collector) -> None:
                     where(f, call),
                     kind="effect",
                 )
-    res.floor("C02.R5", 2, n)
+    res.analysed["record_constructor_sites"] = n  # no floor: that records are created at all is established by R2 on the symbolic runs
 
 
 def run_r5_graph(repo: Repo, res: Result) -> None:
